@@ -198,6 +198,9 @@ func (e *Engine) initFor(p *ssa.Package) *initResult {
 	st := &State{e: e, heap: map[string]*Term{}, cells: map[cellKey]Val{}}
 	stExt[st] = &stateExt{}
 	defer delete(stExt, st)
+	savedFresh := e.nfresh
+	e.nfresh = 10000 * (1 + e.pkgIndex(p.Pkg.Path()))
+	defer func() { e.nfresh = savedFresh }()
 	prevInit := e.curInit
 	e.curInit = x
 	func() {
